@@ -15,7 +15,7 @@
 (* cache per-class data at first instantiation).                           *)
 (***************************************************************************)
 EXTENDS Integers, Sequences, FiniteSets, TLC, Json
-CONSTANTS NC, MaxOps, MaxSupers, EmitFrom,
+CONSTANTS NC, MaxOps, MaxSupers, EmitFrom, WithMeth,
           Thin        \* random walks print one state in Thin of the deep end (all enabled successors are evaluated)
 AllC == <<"ca", "cb", "cc", "cd", "ce", "cf">>
 C == {AllC[i] : i \in 1..NC}
@@ -99,7 +99,7 @@ Who(t, me, c) == LET w == SelectSeq(Prec(t, c), LAMBDA d : d \in me) IN IF w = <
 Next == /\ Len(hist) < MaxOps
         /\ \/ \E c \in C, sups \in SeqsUpTo(C, MaxSupers), cfg \in Cfgs : DefClass(c, sups, cfg)
            \/ \E c \in C : Make(c)
-           \/ \E c \in C : DefMeth(c)
+           \/ WithMeth /\ \E c \in C : DefMeth(c)
 \* order independence on a fixed shape: the chain ca <- cb <- cc (and the diamond cd over cb and cc when NC = 4), classes and
 \* methods defined in every order the names allow; the same states are reached, the observations must be the same
 ChainSup(c) == IF Idx(c) = 1 THEN <<>> ELSE IF Idx(c) = 4 THEN <<AllC[2], AllC[3]>> ELSE <<AllC[Idx(c) - 1]>>
